@@ -26,10 +26,14 @@ Definition class_of_tabs (T : list (list (Z*Z))) (r : Z) : cls := class_of_bits 
 
 (* all constants any of these functions compares r with *)
 Definition all_bps : list Z :=
-  Eval vm_compute in zsort (0 :: 1114112 :: flat_map bps_of (go_tables ++ ucd13_tables)).
+  Eval vm_compute in zsort (0 :: 128 :: 1114112 :: flat_map bps_of (go_tables ++ ucd13_tables)).
 
+(* a decision tree for the classification; the root separates ASCII so that the
+   common case is decided in a few comparisons *)
 Definition go_tree : tree cls :=
-  Eval vm_compute in build 24 (class_of_tabs go_tables) (lowest all_bps - 1) all_bps.
+  Eval vm_compute in
+    Node 128 (build 24 (class_of_tabs go_tables) (lowest all_bps - 1) (filter (fun b => b <? 128) all_bps))
+             (build 24 (class_of_tabs go_tables) 128 (filter (fun b => 128 <? b) all_bps)).
 
 Definition go_class_of (r : Z) : cls := lookup go_tree r.
 
